@@ -23,6 +23,8 @@ from . import hirq as H
 from . import tables as T
 from . import wire as W
 from .pathcond import Analysis, OK, ERR
+from . import sym as S
+from . import dispatch as D
 from .engine import VERIF
 
 LEVEL = "other"
@@ -32,46 +34,22 @@ CBORERR = "cbor_smol::error::Error"
 
 
 def conversion_function(ctx, F, cfg):
+    """decision table of From<CtapMappingError> for Error from its path summaries: for every (outer variant, cbor_smol::Error
+    variant) the unique path whose variant tests admit it, and the Error it returns"""
     fn = F.trait_impl_fn(CONV, "from")
     if not ctx.oblige("C05|conv|anchor", fn is not None, "anchor missing: impl From<CtapMappingError> for Error", cfg=cfg):
         return 0
-    A = Analysis(fn)
     cbor = F.adt(CBORERR)
     cme = F.adt(CME)
     if not ctx.oblige("C05|conv|adts", cbor is not None and cme is not None, "anchor missing: CtapMappingError / cbor_smol::Error ADT", cfg=cfg):
         return 0
-    param_ids = set(A.param_ids)
-
-    def root_is_param(n):
-        n = A.subst(n)
-        return H.local_id(n) in param_ids
-
-    def lookup(outer, inner):
-        """first result site whose path conditions admit (outer variant, inner cbor variant)"""
-        for s in A.sites:
-            ok = True
-            for c in s.conds:
-                if c.kind != "match":
-                    ok = False
-                    break
-                if root_is_param(c.scrut):
-                    want = CME + "::" + outer
-                else:
-                    # the payload binding of ParsingError(..)
-                    want = CBORERR + "::" + inner if inner else None
-                if want is None:
-                    ok = False
-                    break
-                pats = c.pat["pats"] if c.pat.get("k") == "or" else [c.pat]
-                hit = any(H.pat_is_catchall(p) or H.pat_ctor(p) == want for p in pats)
-                pri = any(H.pat_is_catchall(p) or H.pat_ctor(p) == want for q in c.prior for p in (q["pats"] if q.get("k") == "or" else [q]))
-                if not hit or pri:
-                    ok = False
-                    break
-            if ok:
-                return s
-        return None
-
+    names = [n for p in fn["params"] for n, _ in H.pat_bindings(p)]
+    var = ("param", names[0]) if names else None
+    try:
+        paths = S.Sym(F, fn).run()
+    except S.TooManyPaths:
+        ctx.violation("C05|conv|paths", "the conversion has too many paths to enumerate", cfg=cfg)
+        return 0
     rows = 0
     want_codes = {"InvalidCommand": 0x01, "MissingParameter": 0x14, "InvalidCbor": 0x12}
     err = F.adt("ctap2::Error")
@@ -83,74 +61,62 @@ def conversion_function(ctx, F, cfg):
         cases.append(("ParsingError", v["name"], "MissingParameter" if v["name"] == "SerdeMissingField" else "InvalidCbor"))
     for outer, inner, want in cases:
         rows += 1
-        s = lookup(outer, inner)
+        asg = {var: CME + "::" + outer}
+        if inner:
+            asg[("proj", var, CME + "::" + outer, 0)] = CBORERR + "::" + inner
+        sel, und = S.select(paths, asg)
         got = None
-        if s is not None and not s.wrappers and s.node is not None:
-            c = H.ctor(H.strip_block(s.node))
-            got = c.split("::")[-1] if c and c.startswith("ctap2::Error::") else c
+        if len(sel) == 1 and not und:
+            r = sel[0].result
+            if r is not None and r[0] == "ctor" and r[1].startswith("ctap2::Error::") and not (sel[0].done and sel[0].done[0] == "panic"):
+                got = r[1].split("::")[-1]
+            else:
+                got = S.show(r)[:60]
+        elif und:
+            got = "undecided (%s)" % S.show_atom(und[0])[:60]
+        else:
+            got = "%d paths" % len(sel)
         ctx.oblige("C05|conv|%s|%s" % (outer, inner), got == want,
                    "CtapMappingError::%s%s is reported as %s, the property requires %s" % (outer, "(%s)" % inner if inner else "(_)", got, want), cfg=cfg, where=fn["sp"])
     ctx.oblige("C05|conv|variants", sorted(v["name"] for v in cme["variants"]) == ["InvalidCommand", "ParsingError"],
                "CtapMappingError has variants %s: a new fault class needs a status decision" % [v["name"] for v in cme["variants"]], cfg=cfg)
-    ctx.sample({"cfg": cfg, "conversion": [A.site_str(s) for s in A.sites]}, limit=3)
+    ctx.sample({"cfg": cfg, "conversion": S.summarize(paths)}, limit=3)
     return rows
 
 
 def funnel(ctx, F, cfg):
-    fn = F.fn("ctap2::Request::<'a>::deserialize")
-    if not ctx.oblige("C05|funnel|anchor", fn is not None, "anchor missing: ctap2::Request::deserialize", cfg=cfg):
+    """every error that leaves Request::deserialize is the conversion of a CtapMappingError fixed by the exit"""
+    m = D.build(F)
+    if not ctx.oblige("C05|funnel|anchor", m.error is None, m.error or "", cfg=cfg):
         return 0
-    A = Analysis(fn)
     n = 0
-
-    def mapping_ctor(e):
-        """CtapMappingError constructor (variant, payload desc) an expression evaluates to"""
-        e = H.strip_block(A.subst(e))
-        if e.get("k") == "call" and (e.get("ctor") or "").startswith(CME + "::"):
-            return e["ctor"].split("::")[-1], A.desc(e["args"][0]) if e["args"] else ""
-        return None, None
-
-    # explicit Err(..) results
-    for s in A.sites:
-        if not s.wrappers or s.wrappers[0] != ERR:
-            ctx.oblige("C05|funnel|ok-site|%d" % s.seq, s.wrappers[:1] == [OK], "Request::deserialize has a result that is neither Ok(..) nor Err(..)", cfg=cfg, where=H.line(s.node) if s.node else None, nontrivial=False)
+    out_ty = m.fn.get("output") or ""
+    for i, r in enumerate(m.routes):
+        if r.panics:
+            ctx.oblige("C05|funnel|panic|%d" % i, False, "Request::deserialize can panic instead of reporting a status (%s)" % (r.p.done,), cfg=cfg, where=m.fn["sp"])
+            continue
+        if r.outcome == "ok":
+            continue
+        if r.outcome != "err":
+            ctx.oblige("C05|funnel|ok-site|%d" % i, False, "Request::deserialize has a result that is neither Ok(..) nor Err(..): %s" % S.show(r.p.result)[:100], cfg=cfg, where=m.fn["sp"], nontrivial=False)
             continue
         n += 1
-        node = H.strip_block(s.node)
-        good = node.get("k") in ("call", "mcall") and H.conversion_impl(node) == CONV
-        var = payload = None
-        if good:
-            var, payload = mapping_ctor(H.call_args(node)[0])
-            good = var in ("InvalidCommand", "ParsingError")
-        ctx.oblige("C05|funnel|err-site|%s" % (var or A.desc(node)[:60]), good,
-                   "an error leaves Request::deserialize without going through From<CtapMappingError>: %s" % A.desc(node)[:120], cfg=cfg, where=H.line(node))
+        e = r.err
+        var = e[1].split("::")[-1] if e is not None and e[0] == "ctor" and e[1].startswith(CME + "::") else None
+        converted = r.value is not None and r.value != e      # went through `?` / .into() / From::from
+        label = var or S.show(r.value)[:60]
+        ctx.oblige("C05|funnel|err-site|%s" % label, var in ("InvalidCommand", "ParsingError") and converted,
+                   "an error leaves Request::deserialize without going through From<CtapMappingError>: %s" % S.show(r.value)[:120], cfg=cfg, where=m.fn["sp"])
         if var == "ParsingError":
-            ctx.oblige("C05|funnel|err-site|ParsingError|payload", payload == "cbor_smol::error::Error::DeserializeUnexpectedEnd",
-                       "a hand-made ParsingError carries %s" % payload, cfg=cfg, where=H.line(node), nontrivial=False)
-    # `?` exits
-    for t in A.tries:
-        n += 1
-        ty = t.node.get("ty", "")
-        d = A.desc(t.node)[:100]
-        ctx.oblige("C05|funnel|try|%d" % n, ty.startswith("core::result::Result<") and ty.endswith(", ctap2::CtapMappingError>"),
-                   "a `?` in Request::deserialize propagates an error of type %s, not a CtapMappingError: %s" % (ty, d), cfg=cfg, where=H.line(t.node))
-        e = H.strip_block(t.node)
-        if e.get("k") == "mcall" and e.get("callee") == "core::result::Result::<T, E>::map_err":
-            f = H.strip(e["args"][0])
-            if f.get("k") == "closure":
-                b = H.strip_block(f["body"])
-                tail = H.strip_block(b.get("expr", b)) if b.get("k") == "block" else b
-                var, payload = mapping_ctor(tail)
-                ctx.oblige("C05|funnel|try|closure|%d" % n, var == "InvalidCommand", "an error is rewritten by a closure into %s" % (var or A.desc(tail)[:60]), cfg=cfg, where=H.line(f))
-            else:
-                p = H.def_path(f)
-                ctx.oblige("C05|funnel|try|wrapper|%d" % n, p == CME + "::ParsingError", "CBOR errors are wrapped by %s instead of the bare ParsingError constructor" % p, cfg=cfg, where=H.line(e))
-        elif e.get("k") == "mcall" and e.get("callee") in ("core::option::Option::<T>::ok_or", "core::option::Option::<T>::ok_or_else"):
-            var, payload = mapping_ctor(e["args"][0])
-            ctx.oblige("C05|funnel|try|ok_or|%d" % n, var == "ParsingError" and payload == "cbor_smol::error::Error::DeserializeUnexpectedEnd",
-                       "a missing command byte is reported as %s(%s)" % (var, payload), cfg=cfg, where=H.line(e))
-        else:
-            ctx.oblige("C05|funnel|try|shape|%d" % n, False, "unrecognised error exit: %s" % d, cfg=cfg, where=H.line(e))
+            pay = e[2][0] if e[2] else None
+            from_decoder = r.decode is not None and r.decode_known == S.ERR and pay == m.sym.proj(r.decode.term, S.ERR, 0)
+            hand_made = pay == ("ctor", D.UNEXPECTED_END, ()) and r.op is None
+            ctx.oblige("C05|funnel|err-site|ParsingError|payload|%d" % i, from_decoder or hand_made,
+                       "a ParsingError carries %s: neither the payload decoder's own error nor DeserializeUnexpectedEnd for an empty message" % S.show(pay)[:100], cfg=cfg, where=m.fn["sp"], nontrivial=False)
+        elif var == "InvalidCommand":
+            ctx.oblige("C05|funnel|err-site|InvalidCommand|payload|%d" % i, r.op is not None and e[2] == (r.op,) and r.decode is None,
+                       "InvalidCommand does not carry the command byte, or is raised after the payload was looked at: %s" % S.show(e)[:100], cfg=cfg, where=m.fn["sp"], nontrivial=False)
+    ctx.oblige("C05|funnel|return-type", out_ty.endswith("ctap2::Error>") or "ctap2::Error" in out_ty or out_ty.startswith("core::result::Result<"), "Request::deserialize returns %s" % out_ty, cfg=cfg, nontrivial=False)
     return n
 
 
